@@ -62,7 +62,7 @@ def run(prop: str, tier: str, seed: int) -> int:
     if prop == "C05":
         exhaustive = False
         g = gen.Gen(seed, max_depth=3 if tier == "quick" else 4)
-        n = 250 if tier == "quick" else 4000
+        n = 1000 if tier == "quick" else 10000
         groups = []
         for _ in range(n):
             T = g.dataclass(g.max_depth, mixin="dict")
